@@ -485,8 +485,9 @@ def run_randind(c):
 def io_case(draw, **kw):
     c = draw(world_case(**kw))
     c["stride"] = draw(st.integers(1, 3))
-    c["kind"] = draw(st.sampled_from(["npy", "h5"]))
+    c["kind"] = draw(st.sampled_from(["npy", "h5", "traj"]))
     c["dtype"] = draw(st.sampled_from(["float64", "float32", "int64"]))
+    c["processes"] = draw(st.sampled_from([1, 2, 3]))      # worker processes of every rank's own loader (kind "traj")
     return c
 
 
@@ -508,6 +509,26 @@ def run_io(c):
             def fn(rank):
                 gl, loc = mio.load_npy_as_striped(files, stride=stride)
                 return [int(x) for x in gl], np.asarray(loc)
+        elif c["kind"] == "traj":
+            # molecular trajectories, one file each: every rank loads its files with its own pool of worker processes
+            import mdtraj
+            top = mdtraj.Topology()
+            ch_ = top.add_chain()
+            r_ = top.add_residue("ALA", ch_)
+            for i in range(c["dim"]):
+                top.add_atom("C%d" % i, mdtraj.element.carbon, r_)
+            files = []
+            trajs = [np.repeat(np.asarray(t, dtype=np.float32)[:, :, None], 3, axis=2) + np.arange(3, dtype=np.float32)
+                     for t in trajs]
+            for i, t in enumerate(trajs):
+                f = os.path.join(d, "trj_%02d.h5" % i)
+                mdtraj.Trajectory(t, top).save_hdf5(f)
+                files.append(f)
+            trajs = [mdtraj.load(f).xyz for f in files]          # what a serial reader gets back from each file
+
+            def fn(rank):
+                gl, loc = mio.load_trajectory_as_striped(files, processes=c.get("processes", 1), stride=stride)
+                return [int(x) for x in gl], np.asarray(loc)
         else:
             if len(trajs) < 2:
                 raise Skip()
@@ -522,8 +543,9 @@ def run_io(c):
         shutil.rmtree(d, ignore_errors=True)
     for rank, (gl, loc) in enumerate(res):
         # with stride > 1 the docs do not say whether global lengths are strided; only stride 1 is asserted
-        require(stride > 1 or gl == [len(t) for t in trajs], "striped loader reports wrong global lengths", rank=rank,
-                got=gl, want=[len(t) for t in trajs])
+        want_gl = [len(t[::stride]) for t in trajs] if c["kind"] == "traj" else [len(t) for t in trajs]
+        require((stride > 1 and c["kind"] != "traj") or gl == want_gl, "striped loader reports wrong global lengths", rank=rank,
+                got=gl, want=want_gl)
         want = np.concatenate([t[::stride] for t in trajs[rank::size]])
         require(loc.dtype == want.dtype and loc.shape == want.shape and np.array_equal(loc, want),
                 "striped loader's local block != slicing the serial load", rank=rank, kind=c["kind"],
